@@ -18,25 +18,35 @@
 EXTENDS Integers, Sequences, FiniteSets, TLC
 LOCAL SX == INSTANCE SequencesExt
 
-CONSTANT N                 \* server names 1..N
+CONSTANTS N,               \* server names 1..N
+          Dups,            \* TRUE = a name may be listed several times ("a server is given more weight if it's listed
+                           \* multiple times": the stored list keeps the duplicates, naturally sorted)
+          Wrong            \* "none" = the selector as coded; a deliberately WRONG selector otherwise (negative control):
+                           \*   "nosort"   SetServers keeps the caller's order     (TLC must refute OrderInsensitive)
+                           \*   "offbyone" jumpHash(key, n - 1)                    (TLC must refute AppendStable)
 
 VARIABLES jumps,           \* the key: its jump destinations
-          a, b             \* two server lists as passed to SetServers (any order, no duplicates)
+          a, b             \* two server lists as passed to SetServers (any order; duplicates iff Dups)
 
 Range(s) == {s[i] : i \in 1..Len(s)}
 Max(S)   == CHOOSE x \in S : \A y \in S : y <= x
 
-(* SetServers: the list is stored in natural sort order *)
-NatSort(s) == SX!SetToSortSeq(Range(s), LAMBDA x, y : x < y)
+(* SetServers: the list is stored in natural sort order, duplicates kept *)
+Count(s, x) == Cardinality({i \in 1..Len(s) : s[i] = x})
+RECURSIVE Rep(_, _)
+Rep(x, n) == IF n = 0 THEN <<>> ELSE <<x>> \o Rep(x, n - 1)
+RECURSIVE Flat(_, _)
+Flat(ds, s) == IF ds = <<>> THEN <<>> ELSE Rep(Head(ds), Count(s, Head(ds))) \o Flat(Tail(ds), s)
+NatSort(s) == Flat(SX!SetToSortSeq(Range(s), LAMBDA x, y : x < y), s)
 
 (* jumpHash(key, n) for a key with jump destinations J *)
-Bucket(J, n) == Max({j \in J : j < n})
+Bucket(J, n) == Max({j \in J : j < (IF Wrong = "offbyone" /\ n > 1 THEN n - 1 ELSE n)})
 
 (* PickServer *)
 PickIn(J, sorted) == sorted[Bucket(J, Len(sorted)) + 1]
-Pick(J, servers)  == PickIn(J, NatSort(servers))
+Pick(J, servers)  == PickIn(J, IF Wrong = "nosort" THEN servers ELSE NatSort(servers))
 
-Lists == UNION {{s \in [1..n -> 1..N] : \A i, j \in 1..n : i # j => s[i] # s[j]} : n \in 1..N}
+Lists == UNION {{s \in [1..n -> 1..N] : Dups \/ \A i, j \in 1..n : i # j => s[i] # s[j]} : n \in 1..N}
 JumpSets == {J \in SUBSET (0..(N - 1)) : 0 \in J}
 
 Init == jumps \in JumpSets /\ a \in Lists /\ b \in Lists
@@ -45,13 +55,26 @@ Next == UNCHANGED <<jumps, a, b>>
 PickInList == Pick(jumps, a) \in Range(a)
 
 (* the same servers in any order place the key on the same server *)
-OrderInsensitive == Range(a) = Range(b) => Pick(jumps, a) = Pick(jumps, b)
+SameServers(x, y) == NatSort(x) = NatSort(y)          \* the same names, each as many times
+OrderInsensitive == SameServers(a, b) => Pick(jumps, a) = Pick(jumps, b)
 
 (* b = a plus one server that sorts after all of a's: the key stays or moves to the new server *)
-Appended(x, y) == \E m \in Range(y) : /\ Range(y) = Range(x) \cup {m}
+Appended(x, y) == \E m \in Range(y) : /\ NatSort(y) = Append(NatSort(x), m)
                                       /\ \A s \in Range(x) : s < m
 AppendStable == Appended(a, b) => Pick(jumps, b) \in {Pick(jumps, a), Max(Range(b))}
 
 (* not part of C19, guards against a vacuous model: some key moves, and it is the sort that matters *)
 MonotoneBuckets == \A n \in 1..(N - 1) : Bucket(jumps, n + 1) \in {Bucket(jumps, n), n}
+
+(* Reachability witnesses for the implication-shaped clauses (JumpHashMC.tla ASSUMEs them; the state space is
+   exactly Init, so a witness in JumpSets x Lists x Lists is a reachable state): the antecedents are satisfiable
+   in both non-trivial ways and the sort is what makes the placement order-insensitive. *)
+WitnessSortMatters == \E J \in JumpSets, x, y \in Lists :
+                         SameServers(x, y) /\ x # y /\ PickIn(J, x) # PickIn(J, y) /\ Pick(J, x) = Pick(J, y)
+WitnessKeyMoves    == \E J \in JumpSets, x, y \in Lists :
+                         Appended(x, y) /\ Pick(J, y) # Pick(J, x) /\ Pick(J, y) = Max(Range(y))
+WitnessKeyStays    == \E J \in JumpSets, x, y \in Lists :
+                         Appended(x, y) /\ Len(x) > 1 /\ Pick(J, y) = Pick(J, x) /\ Pick(J, x) # NatSort(x)[1]
+WitnessDuplicate   == Dups => \E J \in JumpSets, x \in Lists :      \* a name listed twice owns two buckets
+                         Len(x) = 3 /\ Cardinality(Range(x)) = 2 /\ Pick(J, x) = NatSort(x)[2] /\ NatSort(x)[2] = NatSort(x)[3]
 =============================================================================
